@@ -71,6 +71,18 @@ def job_skeleton(job):
     if len(samples) < 2:
       samples.append(f'{skel} x {rname}: {en.stats.paths} paths over the '
                      'symbolic statistics')
+  # the same Quantizer used before with other '*' recipes (resolution must be
+  # a pure function of the final rule list)
+  if prop in ('C03', 'C01') and not skel.startswith('dag'):
+    pasts = {'DRQ': [P.rule('.*', '*', 'DRQ')], 'SRQ8': [P.rule('.*', '*', 'SRQ8')],
+             'WO': [P.rule('.*', '*', 'WO')], 'SRQ16': [P.rule('.*', '*', 'SRQ16')]}
+    for a, b in (('DRQ', 'SRQ8'), ('SRQ8', 'WO'), ('SRQ16', 'DRQ'),
+                 ('WO', 'SRQ16')):
+      en, cs = P.explore_case(skel, f'after:{a}:then:{b}', mb, pasts[b],
+                              ORACLES[prop], history=[pasts[a]])
+      st.merge(en.stats)
+      cands += cs
+      inconc += [f'{skel}/after {a} then {b}: {x}' for x in en.inconclusive]
   r = JobResult(job.name, st.as_dict(), cands, inconc, {}, samples=samples)
   for c in cands:
     c.job = job.name
@@ -109,9 +121,59 @@ def classify(prop, probs, skel, rname):
   return 'modes: ' + txt[:60]
 
 
+def _replay_history(d, final):
+  """replay_public with a past, for a final recipe that is not in the family."""
+  import copy
+  import numpy as np
+  from ai_edge_quantizer import quantizer as quantizer_lib, qtyping
+  from tensorflow.lite.tools import flatbuffer_utils
+  mb = P.model_bytes_of(d['skeleton'])
+  inp = flatbuffer_utils.read_model_from_bytearray(bytearray(mb))
+  q = quantizer_lib.Quantizer(mb, None)
+
+  def enter(rec):
+    for r in copy.deepcopy(rec):
+      q.update_quantization_recipe(
+          r['regex'], r['operation'],
+          qtyping.OpQuantizationConfig.from_dict(r['op_config'])
+          if r.get('op_config') else None, r['algorithm_key'])
+  for past in d['history']:
+    enter(past)
+    try:
+      with np.errstate(all='ignore'):
+        q.quantize(P.concrete_qsvs(inp, d.get('stats'))
+                   if q.need_calibration else None)
+    except Exception:  # pylint: disable=broad-except
+      pass
+  enter(final)
+  res = {'input_model': inp}
+  out = P.Outcome()
+  out.input_model, out.recipe, out.recipe_manager = inp, final, q._recipe_manager
+  try:
+    with np.errstate(all='ignore'):
+      r = q.quantize(P.concrete_qsvs(inp, d.get('stats'))
+                     if q.need_calibration else None)
+    out.model = flatbuffer_utils.read_model_from_bytearray(
+        bytearray(r.quantized_model))
+    out.raised = None
+  except Exception as ex:  # pylint: disable=broad-except
+    out.raised = ex
+  res['outcome'] = out
+  return res
+
+
 def replay(prop, c):
   d = c['data']
-  res = P.replay_public(d['skeleton'], d['recipe'], d.get('stats'))
+  if d.get('history'):
+    fam_recipe = d['recipe']
+    pasts = {'DRQ': [P.rule('.*', '*', 'DRQ')], 'SRQ8': [P.rule('.*', '*', 'SRQ8')],
+             'WO': [P.rule('.*', '*', 'WO')], 'SRQ16': [P.rule('.*', '*', 'SRQ16')]}
+    final = pasts[fam_recipe.split(':')[-1]]
+    import copy as _copy
+    from ai_edge_quantizer import quantizer as _ql
+    res = _replay_history(d, final)
+  else:
+    res = P.replay_public(d['skeleton'], d['recipe'], d.get('stats'))
   probs = CONCRETE[prop](res['outcome'])
   what = (f"skeleton={d['skeleton']} recipe={d['recipe']} "
           f"(statistics from the {d.get('concretize')} witness): {probs[:3]}")
